@@ -3,7 +3,7 @@ import random
 from props.loop_streams import *  # noqa: F401,F403
 from props import loop_streams as S
 
-OWN = {"21", "22", "23", "24", "31", "30", "panic"}
+OWN = {"21", "22", "23", "24", "25", "31", "30", "panic"}
 RULE = 'same scripts as C01 (start/complete/cancel/close/timer arm/disarm/post over several objects, registrations that fail on regular files at the dispatch limit, polls with nothing ready); the ledger of operations in flight is recomputed from the event stream after every script line and compared with Pending()'
 
 
